@@ -40,6 +40,8 @@ def evaluate(name):
             return {"name": name, "status": "patch does not apply to the current tree", "fired": {}}
         for c in man["checks"]:
             cid = c["property_id"]
+            if os.environ.get("ONLY_CHECKS") and cid not in os.environ["ONLY_CHECKS"].split(","):
+                continue
             evd = tempfile.mkdtemp()
             q = subprocess.run(c["quick_cmd"], shell=True, cwd=V, env=dict(os.environ, VERIF_EVIDENCE_DIR=evd, VERIF_REPO=scratch), stdout=subprocess.PIPE, text=True)
             if q.returncode != 0:
@@ -50,6 +52,12 @@ def evaluate(name):
             shutil.rmtree(evd, ignore_errors=True)
     finally:
         shutil.rmtree(scratch, ignore_errors=True)
+    if os.environ.get("ONLY_CHECKS") and os.path.exists(os.path.join(d, "result.json")):
+        only_c = os.environ["ONLY_CHECKS"].split(",")
+        prev = json.load(open(os.path.join(d, "result.json"))).get("fired", {})
+        merged = {k: v for k, v in prev.items() if k not in only_c}
+        merged.update(fired)
+        fired = merged
     res = {"name": name, "status": "evaluated", "fired": fired}
     json.dump(res, open(os.path.join(d, "result.json"), "w"), indent=1)
     print(name, fired if fired else "silent", flush=True)
